@@ -13,7 +13,7 @@ async fn reopen(ctx: &mut Ctx, w: &mut World) -> bool {
 }
 
 pub async fn history(ctx: &mut Ctx, root: &std::path::Path, tag: &str, nops: usize) {
-    let cfg = Cfg { nb: *ctx.rng.pick(&[1u16, 2]), segsize: 128 * 1024, compression: ctx.rng.chance(1, 2), sync_ms: 8 };
+    let cfg = Cfg { nb: *ctx.rng.pick(&[1u16, 2, 2, 4, 6]), segsize: 128 * 1024, compression: ctx.rng.chance(1, 2), sync_ms: 8 };
     let mut w = World::new(ctx, root, cfg, tag);
     let op = format!("st open nb={} seg={} c={}", w.cfg.nb, w.cfg.segsize, w.cfg.compression as u8);
     w.hist.push(op.clone());
